@@ -1,3 +1,4 @@
 import CbProofs.Preproc
 import CbProofs.PreprocExpand
 import CbProofs.FlatIndex
+import CbProofs.RefPres
